@@ -36,7 +36,7 @@ func runC20(c *Ctx) {
 	c.L.Floor("C20.pool.reinit", 3)
 	c.L.Floor("C20.defer-order", 2)
 	c.L.Floor("C20.recorder", 4)
-	c.L.Floor("C20.isolation", 3)
+	c.L.Floor("C20.isolation", 5)
 	c.L.Floor("C20.attrs", 4)
 	c20HandlerAttrs(c)
 
@@ -66,14 +66,34 @@ func runC20(c *Ctx) {
 		c.check(okT, "C20.isolation", cl, "captured variable "+fv.Name(), nil, "the per-request closure may share only the middleware and the next handler between requests; type "+fv.Type().String())
 	}
 	var serve *ssa.Call
+	var serves []*ssa.Call
 	for _, ci := range core.AllCalls(cl) {
 		if call, ok := ci.(*ssa.Call); ok && call.Call.IsInvoke() && call.Call.Method.Name() == "ServeHTTP" {
 			serve = call
+			serves = append(serves, call)
 		}
 	}
+	// one way into the wrapped handler: a second ServeHTTP call (a fast path
+	// for cancelled requests, for a disabled logger, ...) hands it the raw
+	// request and writer — no context logger, no recorded status
+	c.check(len(serves) <= 1, "C20.isolation", cl, "the wrapped handler is entered at one place", serve,
+		sprintf("%d ServeHTTP calls in the per-request closure: every invocation must get the recorder, the request copy and the context logger", len(serves)))
 	if serve == nil {
 		c.undecided("C20.isolation", cl, "ServeHTTP call", nil, "not found")
 		return
+	}
+	{
+		okOnce := true
+		for _, ret := range core.Returns(cl) {
+			if cl.Recover != nil && ret.Block() == cl.Recover {
+				continue
+			}
+			mn, mx, reach := core.CountOnPaths(cl, nil, ret, func(in ssa.Instruction) bool { return in == ssa.Instruction(serve) })
+			if reach && (mn != 1 || mx != 1) {
+				okOnce = false
+			}
+		}
+		c.check(okOnce, "C20.isolation", cl, "every request reaches the wrapped handler exactly once", serve, "no path through the middleware skips or repeats the handler")
 	}
 	// pools
 	type pooled struct {
